@@ -543,7 +543,9 @@ Proof.
   - reflexivity.
   - cbv zeta. apply Hgen.
   - unfold has_indices. change is_index with loc_is_index. destruct (existsb loc_is_index (x_locs d)) eqn:Hi; [reflexivity|].
-    unfold approx_matrices. destruct (x_profiles d) as [|p ps]; [reflexivity|]. cbn [map xm_matrix m_dist negb nonempty andb].
+    unfold approx_matrices, approx_skipped. destruct (x_profiles d) as [|p ps]; [reflexivity|]. cbn [is_nil orb].
+    destruct (existsb (fun s => s <=? 0) (x_speeds d)); [cbn; now rewrite andb_false_r|]. rewrite andb_true_r.
+    cbn [map xm_matrix m_dist negb nonempty andb].
     cbv zeta. rewrite repeat_length, round_sqrt_square, Hgen, (reverse_length _ Hi).
     assert (Hno : existsb (index_ge (ndistinct (x_locs d))) (x_locs d) = false).
     { apply existsb_false. intros l Hl. destruct l as [x|i]; [reflexivity|]. exfalso.
@@ -570,17 +572,15 @@ Qed.
 
 (* ---------- xvalidate = the documented rules, outside K7 / K8 ---------- *)
 Lemma xknown_false d : xknown d = false ->
-  known (xbase d) = false /\ xk7_over8 d = false /\ x11_special_without_job d = false /\ x14_speed_not_positive d = false
+  known (xbase d) = false /\ xk7_over8 d = false /\ x11_special_without_job d = false
   /\ x16_recharge_times d = false /\ g1_goal_unbuildable d = false /\ g2_required_breaks d = false.
 Proof.
   unfold xknown, xknown_table. cbn [existsb snd]. unfold on_base. intros H.
-  apply orb_false_iff in H; destruct H as [K6 H]. apply orb_false_iff in H; destruct H as [K7 H].
-  apply orb_false_iff in H; destruct H as [K8 H]. apply orb_false_iff in H; destruct H as [K9 H].
-  apply orb_false_iff in H; destruct H as [K11 H]. apply orb_false_iff in H; destruct H as [K14 H].
-  apply orb_false_iff in H; destruct H as [K16 H]. apply orb_false_iff in H; destruct H as [K21 H].
-  apply orb_false_iff in H; destruct H as [K22 _].
+  apply orb_false_iff in H; destruct H as [K7 H]. apply orb_false_iff in H; destruct H as [K9 H].
+  apply orb_false_iff in H; destruct H as [K11 H]. apply orb_false_iff in H; destruct H as [K16 H].
+  apply orb_false_iff in H; destruct H as [K21 H]. apply orb_false_iff in H; destruct H as [K22 _].
   assert (K7b : k7_over8 (xbase d) = false) by (unfold xk7_over8 in K7; now apply orb_false_iff in K7).
-  repeat split; try assumption. unfold known, known_table. cbn [existsb snd]. unfold g2_required_breaks in K22. now rewrite K6, K7b, K8, K9, K22.
+  repeat split; try assumption. unfold known, known_table. cbn [existsb snd]. unfold g2_required_breaks in K22. now rewrite K7b, K9, K22.
 Qed.
 Lemma lifted_agree d : known (xbase d) = false -> forall c f, In (c, f) (lift jobs_checks ++ lift vehicles_checks) -> f d = Some (xviolates c d).
 Proof.
